@@ -15,6 +15,24 @@ import Grip.Model.C08
 namespace Grip.C14
 open Grip.C08 (Cond HasE lookup foundIn)
 
+/-- What a has-expression key resolves to: the core engine's TravelerPathLookup on one side, the
+    value MongoDB finds under the emitted field path on the other.  `lookup e` for one element. -/
+abbrev Res := String → JV
+
+mutual
+  /-- MatchesHasExpression over a resolver (`Grip.C08.eval` is the instance `lookup e`, see
+      `evalBy_lookup` in the lemmas). -/
+  def evalBy (numOf : String → Option Int) (d : Res) : HasE → Bool
+    | .cond k c a => Grip.C08.matchesCond numOf (d k) c a
+    | .and es => Grip.C08.allTrue (evalByList numOf d es)
+    | .or es => Grip.C08.anyTrue (evalByList numOf d es)
+    | .not x => !(evalBy numOf d x)
+    | .none => false
+  def evalByList (numOf : String → Option Int) (d : Res) : List HasE → List Bool
+    | [] => []
+    | x :: xs => evalBy numOf d x :: evalByList numOf d xs
+end
+
 /-- Operator expression under a field: `{ "$gt": a }`, `{ "$not": { … } }`, `{}`. -/
 inductive MOp where
   | eq (a : JV) | ne (a : JV) | gt (a : JV) | gte (a : JV) | lt (a : JV) | lte (a : JV)
@@ -100,10 +118,113 @@ mutual
     | x :: xs, n => convert x n :: convertList xs n
 end
 
-/-- convertPath: GetJSONPath, strip `$.`, rename `gid` to `_id`. -/
+/-! ### convertPath and the documents of the aggregation pipeline -/
+
+/-- A traveler: the current element and the marks set by `as` (gdbi.BaseTraveler). -/
+structure Trav where
+  cur : Elem
+  marks : List (String × Elem) := []
+  deriving Repr, Inhabited
+
+/-- jsonpath.GetNamespace, `none` = jsonpath.Current (`$`, no `$` part, or `$__current__`). -/
+def nsOf (key : String) : Option String :=
+  match Path.namespaceOf key with
+  | some ns => if ns == "__current__" then none else some ns
+  | none => none
+
+/-- `lookup` against a ToDict document. -/
+def lookupIn (doc : JV) (key : String) : JV :=
+  match Path.lookupDoc doc key with
+  | some v => v
+  | none => .null
+
+/-- jsonpath.TravelerPathLookup: the key's namespace picks the current element or a mark
+    (GetMark of a name never marked is nil, whose ToDict is `Path.nilDict`). -/
+def coreRes (t : Trav) : Res := fun key =>
+  match nsOf key with
+  | none => lookup t.cur key
+  | some ns => match t.marks.lookup ns with
+    | some m => lookup m key
+    | none => lookupIn Path.nilDict key
+
+/-- GetJSONPath, strip `$.`, rename `gid` to `_id`: the path below one vertex/edge document. -/
+def basePath (key : String) : List String :=
+  let p := Path.jsonPathOf key
+  if p == ["gid"] then ["_id"] else p
+
+/-- convertPath after `fix: the mongo compiler addresses a has key in the namespace of a mark to the
+    marked document` (d374bbd), as path components: a key of namespace ns ≠ current addresses
+    `marks.<ns>.<path>`, as the Distinct arm of mongo/compile.go does. -/
+def mpathL (key : String) : List String :=
+  match nsOf key with
+  | none => basePath key
+  | some ns => "marks" :: ns :: basePath key
+
+/-- FROZEN: convertPath before that fix dropped the namespace. -/
+def mpathOldL (key : String) : List String := basePath key
+
+/-- convertPath, the printed field name (compared with the real one by the correspondence run). -/
 def mpath (key : String) : String :=
-  let p := ".".intercalate (Path.jsonPathOf key)
-  if p == "gid" then "_id" else p
+  match nsOf key with
+  | none => ".".intercalate (basePath key)
+  | some ns => "marks." ++ ns ++ "." ++ ".".intercalate (basePath key)
+
+def mpathOld (key : String) : String := ".".intercalate (basePath key)
+
+/-- A vertex/edge document of the MongoDB collections: ToDict with gid stored as `_id`. -/
+def mongoFields (e : Elem) : List (String × JV) :=
+  [("_id", .str e.gid), ("data", e.data), ("from", .str e.frm), ("label", .str e.label), ("to", .str e.to)]
+
+/-- The document that flows through the compiled aggregation pipeline: the current element's
+    fields and, under `marks.<name>`, the document that was current at `as(name)`
+    (`$addFields {marks: {name: "$$ROOT"}}`; mongo/compile.go, As / Select / Distinct arms). -/
+def pipeDoc (t : Trav) : JV :=
+  .obj (mongoFields t.cur ++ [("marks", .obj (t.marks.map fun p => (p.1, .obj (mongoFields p.2))))])
+
+/-- MongoDB's dotted field path: members of embedded documents; a missing field is null. -/
+def mongoGet (doc : JV) (path : List String) : JV :=
+  match doc.getPath? path with
+  | some v => v
+  | none => .null
+
+/-- What the emitted field name of a key resolves to on the pipeline document. -/
+def mongoRes (t : Trav) : Res := fun key => mongoGet (pipeDoc t) (mpathL key)
+
+/-- FROZEN: the same for the old convertPath. -/
+def mongoResOld (t : Trav) : Res := fun key => mongoGet (pipeDoc t) (mpathOldL key)
+
+/-- Every mark a key of the expression names is present ("marks defined before use"). -/
+def keyDefined (t : Trav) (key : String) : Bool :=
+  match nsOf key with
+  | none => true
+  | some ns => (t.marks.lookup ns).isSome
+
+mutual
+  def marksDefined (t : Trav) : HasE → Bool
+    | .cond k _ _ => keyDefined t k
+    | .and es => marksDefinedList t es
+    | .or es => marksDefinedList t es
+    | .not x => marksDefined t x
+    | .none => true
+  def marksDefinedList (t : Trav) : List HasE → Bool
+    | [] => true
+    | x :: xs => marksDefined t x && marksDefinedList t xs
+end
+
+/-- Keys that address a field (not the whole document: `$a` / `$` alone give an empty path). -/
+def keyAddressesField (key : String) : Bool := !(Path.jsonPathOf key).isEmpty
+
+mutual
+  def keysAddressFields : HasE → Bool
+    | .cond k _ _ => keyAddressesField k
+    | .and es => keysAddressFieldsList es
+    | .or es => keysAddressFieldsList es
+    | .not x => keysAddressFields x
+    | .none => true
+  def keysAddressFieldsList : List HasE → Bool
+    | [] => true
+    | x :: xs => keysAddressFields x && keysAddressFieldsList xs
+end
 
 mutual
   def hasCrash : MDoc → Bool
@@ -177,14 +298,14 @@ def orOpt : List (Option Bool) → Option Bool
 mutual
   /-- Does the filter select the document?  `none`: the server refuses the filter (`$and`/`$or`
       need a non-empty array; an invalid operator anywhere invalidates the whole query). -/
-  def mEval (d : Elem) : MDoc → Option Bool
-    | .field k o => evalOp o (lookup d k)
+  def mEval (d : Res) : MDoc → Option Bool
+    | .field k o => evalOp o (d k)
     | .and xs => if xs.isEmpty then none else andOpt (mEvalList d xs)
     | .or xs => if xs.isEmpty then none else orOpt (mEvalList d xs)
     | .all => some true
     | .nothing => some false
     | .crash => none
-  def mEvalList (d : Elem) : List MDoc → List (Option Bool)
+  def mEvalList (d : Res) : List MDoc → List (Option Bool)
     | [] => []
     | x :: xs => mEval d x :: mEvalList d xs
 end
@@ -219,13 +340,13 @@ def leafAgree (numOf : String → Option Int) (v : JV) (c : Cond) (a : JV) : Boo
   | .unset => false
 
 mutual
-  def agree (numOf : String → Option Int) (d : Elem) : HasE → Bool
-    | .cond k c a => leafAgree numOf (lookup d k) c a
+  def agree (numOf : String → Option Int) (d : Res) : HasE → Bool
+    | .cond k c a => leafAgree numOf (d k) c a
     | .and es => agreeList numOf d es
     | .or es => agreeList numOf d es
     | .not x => agree numOf d x
     | .none => false
-  def agreeList (numOf : String → Option Int) (d : Elem) : List HasE → Bool
+  def agreeList (numOf : String → Option Int) (d : Res) : List HasE → Bool
     | [] => true
     | x :: xs => agree numOf d x && agreeList numOf d xs
 end
@@ -268,13 +389,13 @@ def leafWhy (numOf : String → Option Int) (v : JV) (c : Cond) (a : JV) : Optio
   | .unset => some "malformed"
 
 mutual
-  def whys (numOf : String → Option Int) (d : Elem) : HasE → List String
-    | .cond k c a => (leafWhy numOf (lookup d k) c a).toList
+  def whys (numOf : String → Option Int) (d : Res) : HasE → List String
+    | .cond k c a => (leafWhy numOf (d k) c a).toList
     | .and es => whysList numOf d es
     | .or es => whysList numOf d es
     | .not x => whys numOf d x
     | .none => ["malformed"]
-  def whysList (numOf : String → Option Int) (d : Elem) : List HasE → List String
+  def whysList (numOf : String → Option Int) (d : Res) : List HasE → List String
     | [] => []
     | x :: xs => whys numOf d x ++ whysList numOf d xs
 end
